@@ -252,9 +252,14 @@ func CorpusHistories(scratch string, names map[string]bool) ([]*History, []strin
 					}
 					again := s.TxVote(s.Val(0), ph(), 0)
 					again.Note = "vote-same-choice-again"
-					last := bad0(3)
-					last.Nonce++ // after the accepted repetition
-					return []*TxSpec{bad(2), bad(3), bad(-1), bad(1 << 30), bad0(2), bad0(-1), again, last}
+					// the repetition first (accepted), then the refused ones: nothing after them restores the vote
+					out := []*TxSpec{bad(2), bad(3), bad(-1), bad(1 << 30), again}
+					for _, c := range []int32{2, -1, 3} {
+						t := bad0(c)
+						t.Nonce++ // after the accepted repetition
+						out = append(out, t)
+					}
+					return out
 				}
 			case 6:
 				if ph() != nil {
@@ -323,6 +328,32 @@ func CorpusHistories(scratch string, names map[string]bool) ([]*History, []strin
 			honest.Note = "honest-after-tampered"
 			return append(out, honest)
 		}, func(g *Genesis) { easyParams(g) }},
+		// a chain without fees (gas price 0 is a legal parameter value): a contract call that moves no value
+		// leaves the sender's balance exactly as it was, and its nonce is the only thing that keeps the same
+		// signed call from being executed again
+		{"fee-less-chain-contract-calls", 1, 2, 7, func(s *Sim, h int64) []*TxSpec {
+			switch h {
+			case 2:
+				t := s.baseTx(6, s.User(0), make([]byte, 20))
+				t.Data, t.Gas, t.Note = deployer(progStore(s.rng)), 400000, "script-deploy"
+				return []*TxSpec{t}
+			case 3, 4, 5:
+				if len(s.contracts) >= 1 {
+					t := s.baseTx(6, s.User(0), s.contracts[0])
+					t.Data, t.Gas, t.Note = word([]byte{3}), 200000, "script-call"
+					if h == 3 {
+						s.scriptKeep = t
+						return []*TxSpec{t}
+					}
+					if s.scriptKeep != nil { // the call of block 3 once more, bit for bit, then a fresh one
+						again := *s.scriptKeep
+						again.Note = "script-call-delivered-again"
+						return []*TxSpec{&again, t}
+					}
+				}
+			}
+			return nil
+		}, func(g *Genesis) { easyParams(g); g.Params.GasPrice = "0" }},
 		// the EVM gas pool of a block (25,000,000): the second transaction whose gas LIMIT no longer fits is
 		// refused ("gas limit reached") and leaves nothing; the pool starts afresh with every block — also on a
 		// node restarted in between
